@@ -7,6 +7,7 @@
 -/
 import QV.Proofs.AuditPlain
 import QV.Proofs.ServerSignedTable
+import QV.Proofs.ServerAnswerFields
 
 namespace QV.ServerContent
 open QV QV.Wire QV.Reader QV.Writer QV.Server QV.ServerSafety QV.ServerScan QV.ServerAnswer QV.Spec QV.ServerTsig
@@ -134,5 +135,116 @@ theorem plain_answer_run (cfg : Cfg) (cat : List ZoneCfg) (tr : Transport) (now 
     (specScanWith_respond _ _ _ hrq).2.2
   rw [hsr]
   rfl
+
+/-! ### (a): the two runs coincide when the plain run accepted everything and fits -/
+
+theorem setIfInBounds_same (a : Bytes) (i : Nat) (v : UInt8) (h : a.getD i 0 = v) (_hi : i < a.size) :
+    a.setIfInBounds i v = a := by
+  apply Array.ext
+  · simp
+  · intro j h1 h2
+    rw [Array.getElem_setIfInBounds]
+    split
+    · rename_i hij
+      subst hij
+      rw [← h, Array.getD_eq_getD_getElem?, Array.getElem?_eq_getElem h2]; rfl
+    · rfl
+
+/-- **more room changes nothing when everything was accepted and fits** (model level, for the
+    answering logic): if the run on `s` accepts every call and its result still leaves `R` octets of
+    room (and ARCOUNT below its maximum), the run on `withTsig s mode rr` — ARCOUNT + 1, `R` octets
+    reserved, TSIG pending — makes the same calls with the same results: same log, and the final
+    writers differ exactly by those three fields -/
+theorem signed_run_eq_plain_run_allok (z : Zone.Zone) (qname : WName) (qtype : Nat) (s : State)
+    (mode : TsigMode) (rr : TsigRr) (hR : reservedLen mode rr ≤ s.available) (pt : PS)
+    (h : inner z qname qtype ⟨s, []⟩ = (.ok (), pt)) (hok : ∀ e ∈ pt.log, OkEv e)
+    (hfit : pt.w.cursor + reservedLen mode rr ≤ s.available) (hcnt : pt.w.arcount + 1 ≤ 65535) :
+    ∃ ps', inner z qname qtype ⟨withTsig s mode rr, []⟩ = (.ok (), ps') ∧ ps'.log = pt.log ∧
+      lift (reservedLen mode rr) ps'.w =
+        modS (s.limit + reservedLen mode rr) (some ⟨mode, reservedLen mode rr, rr⟩) pt.w := by
+  have h1 := (comPF_inner z qname qtype).1 (s.limit + reservedLen mode rr) (some ⟨mode, reservedLen mode rr, rr⟩)
+    ⟨s, []⟩ (by rw [h]; exact hcnt)
+  rw [h] at h1
+  simp only at h1
+  have e : modS (s.limit + reservedLen mode rr) (some ⟨mode, reservedLen mode rr, rr⟩) s =
+      lift (reservedLen mode rr) (withTsig s mode rr) := by
+    unfold modS lift withTsig
+    simp only
+    congr 1
+    omega
+  rw [e] at h1
+  obtain ⟨ps', g1, g2, g3⟩ := inner_limit_independent z qname qtype (reservedLen mode rr) (withTsig s mode rr) _ h1
+    hok (by show pt.w.cursor ≤ s.available - reservedLen mode rr; omega)
+  exact ⟨ps', g1, g2, g3.symm⟩
+
+
+theorem handle_of_inner_ok (z : Zone.Zone) (qname : WName) (qtype : Nat) (tr : Transport) (ps pt : PS)
+    (h : inner z qname qtype ps = (.ok (), pt)) : handleNonAxfrQueryL z qname qtype tr ps = (.ok (), pt) := by
+  have hin : (if qtype = QT "ANY" then answerAny z qname ps else Server.answer z qname qtype ps)
+      = inner z qname qtype ps := by
+    unfold inner; split <;> rfl
+  unfold handleNonAxfrQueryL
+  simp only [hin, h]
+
+/-- the scan state already has RCODE 0 and extended-RCODE octet 0: `set_rcode(NOERROR)` changes nothing -/
+theorem stRcode0_scanState (cfg : Cfg) (tr : Transport) (bufLen : Nat) (req : Bytes)
+    (hbuf : minBuf tr cfg.payload ≤ bufLen) (hpay : 512 ≤ cfg.payload) (id opcode : Nat) (rd : Bool)
+    (q : Spec.DQuestion) (nx : Nat) (hsq : Spec.specQuestionAt req 12 = some (q.qname, q.qtype, q.qclass, nx)) :
+    stRcode 0 (scanState cfg tr bufLen req id opcode rd q) = scanState cfg tr bufLen req id opcode rd q := by
+  have hq : ∀ x, (some q) = some x → ∃ nx, Spec.specQuestionAt req 12 = some (x.qname, x.qtype, x.qclass, nx) := by
+    intro x hx; cases hx; exact ⟨nx, hsq⟩
+  obtain ⟨hbase, _, _, _, _, h30, hs3, _⟩ := s1_facts bufLen tr cfg.payload id opcode rd hbuf hpay req (some q) hq
+  obtain ⟨f1, _, _, _, _, _, _, f8⟩ := arSt_fields (qSt (hdrSt (w0 bufLen (lim0 tr)) id opcode rd) (some q)) tr cfg.payload
+    (specBody (catKind cfg) cfg.payload req).edns (specBody (catKind cfg) cfg.payload req).limitUdp
+  unfold scanState
+  generalize arSt (qSt (hdrSt (w0 bufLen (lim0 tr)) id opcode rd) (some q)) tr cfg.payload
+    (specBody (catKind cfg) cfg.payload req).edns (specBody (catKind cfg) cfg.payload req).limitUdp = S at f1 f8
+  have h3 : S.octets.getD 3 0 = 0 := by rw [f1]; exact h30
+  have hsz : 3 < S.octets.size := by rw [f1]; exact hs3
+  have ho : (stHdr 3 (fun b => (b &&& ~~~ (15 : UInt8)) ||| UInt8.ofNat 0) S) = S := by
+    unfold stHdr
+    rw [h3]
+    have : (fun b : UInt8 => (b &&& ~~~ (15 : UInt8)) ||| UInt8.ofNat 0) 0 = 0 := by decide
+    rw [this, setIfInBounds_same S.octets 3 0 h3 hsz]
+  have hed : S.edns = none ∨ S.edns = some ⟨cfg.payload, 0⟩ := by
+    rw [f8, hbase.edns]; cases (specBody (catKind cfg) cfg.payload req).edns <;> simp
+  unfold stRcode
+  simp only [ho]
+  rcases hed with h | h
+  · rw [h]
+  · cases S with | mk a1 a2 a3 a4 a5 a6 a7 a8 a9 a10 a11 a12 a13 a14 a15 a16 a17 a18 a19 a20 =>
+      simp only at h
+      subst h
+      rfl
+
+
+/-- **(a), model level: the signed run equals the plain run when the plain run accepted every call and
+    its result leaves room for the TSIG record.**  `SS` is the scan state both requests share
+    (`plain_answer_run`, `signed_answer_state_of_run`); the signed run starts from
+    `withTsig (stRcode 0 SS) mode rr`.  If the answering logic on `SS` succeeds with every logged call
+    accepted, ends with `reservedLen mode rr` octets to spare and ARCOUNT below its maximum, then
+    `handle_non_axfr_query` logs exactly the same operations in both runs — hence the same view: RCODE,
+    AA, TC and the three sections (`Proofs/ServerAnswerFields`: the run does not look at `limit`, the
+    TSIG slot or ARCOUNT + 1; `inner_limit_independent`: nor at room it does not need). -/
+theorem signed_handler_eq_plain_allok (cfg : Cfg) (tr : Transport) (bufLen : Nat) (req : Bytes)
+    (hbuf : minBuf tr cfg.payload ≤ bufLen) (hpay : 512 ≤ cfg.payload) (id opcode : Nat) (rd : Bool)
+    (q : Spec.DQuestion) (nx : Nat) (hsq : Spec.specQuestionAt req 12 = some (q.qname, q.qtype, q.qclass, nx))
+    (z : Zone.Zone) (qn : WName) (mode : TsigMode) (rr : TsigRr)
+    (hR : reservedLen mode rr ≤ (scanState cfg tr bufLen req id opcode rd q).available) (pt : PS)
+    (h : inner z qn q.qtype ⟨scanState cfg tr bufLen req id opcode rd q, []⟩ = (.ok (), pt))
+    (hok : ∀ e ∈ pt.log, OkEv e)
+    (hfit : pt.w.cursor + reservedLen mode rr ≤ (scanState cfg tr bufLen req id opcode rd q).available)
+    (hcnt : pt.w.arcount + 1 ≤ 65535) :
+    (handleNonAxfrQueryL z qn q.qtype tr ⟨scanState cfg tr bufLen req id opcode rd q, []⟩).1 = .ok () ∧
+    (handleNonAxfrQueryL z qn q.qtype tr
+      ⟨withTsig (stRcode 0 (scanState cfg tr bufLen req id opcode rd q)) mode rr, []⟩).1 = .ok () ∧
+    (handleNonAxfrQueryL z qn q.qtype tr
+      ⟨withTsig (stRcode 0 (scanState cfg tr bufLen req id opcode rd q)) mode rr, []⟩).2.log =
+      (handleNonAxfrQueryL z qn q.qtype tr ⟨scanState cfg tr bufLen req id opcode rd q, []⟩).2.log := by
+  rw [stRcode0_scanState cfg tr bufLen req hbuf hpay id opcode rd q nx hsq]
+  obtain ⟨ps', g1, g2, _⟩ := signed_run_eq_plain_run_allok z qn q.qtype _ mode rr hR pt h hok hfit hcnt
+  rw [handle_of_inner_ok z qn q.qtype tr _ _ h, handle_of_inner_ok z qn q.qtype tr _ _ g1]
+  exact ⟨rfl, rfl, g2⟩
+
 
 end QV.ServerContent
